@@ -4,11 +4,13 @@ CONSTANTS
   BugGlobalFallback = FALSE
   BugSharedInstance = FALSE
   BugCloneShares = FALSE
+  BugShCoupled = FALSE
   Focus = "all"
   Emit = FALSE
 VIEW AbstractView
 INVARIANT Reproducible
 INVARIANT SeedsDiffer
+INVARIANT NoDeviateUsedTwice
 INVARIANT GlobalUntouched
 PROPERTY Isolated
 PROPERTY GlobalOnlyByGlobalActions
